@@ -15,6 +15,7 @@
 From BCL Require Import Model.Api Model.Verify Proofs.LineCalcProofs Proofs.LexerProofs Proofs.ParserInvProofs Proofs.OptionsProofs Proofs.VerifyProofs.
 Open Scope N_scope.
 From BCL Require Import Model.Compile Spec.Syntax Spec.AstSem Proofs.T2Expr Proofs.T2Proofs Proofs.T1Expr Proofs.T1Proofs Proofs.Language.
+From BCL Require Import Proofs.CompileVerifies.
 
 Theorem C06_lexer_total : forall cs, exists tk,
   last_opt (fst (lex cs)) = Some tk /\ (ttyp tk = tEOF \/ ttyp tk = tFAIL).
@@ -70,6 +71,14 @@ Theorem C06_compiled_runs_clean : forall name src,
   end.
 Proof. first [exact Language.compiled_runs_clean | apply Language.compiled_runs_clean]. Qed.
 Print Assumptions C06_compiled_runs_clean.
+
+(* hence (C06_vm_total) runs to RET or a documented runtime error within the fuel, on every path *)
+Theorem C06_parsed_verifies : forall name src,
+  let pr := parse_whole name src in
+  pr_ok pr = true -> pr_oof pr = false -> pr_panic pr = false -> ps_constants (pr_stats pr) < 2^64 ->
+  verify (pr_prog pr) = true.
+Proof. first [exact CompileVerifies.parsed_verifies | apply CompileVerifies.parsed_verifies]. Qed.
+Print Assumptions C06_parsed_verifies.
 
 (* the literals and limits that used to panic are errors in the model (and, by the differential run, in the code) *)
 Example C06_example :
